@@ -42,6 +42,7 @@ type world struct {
 	ev  *evWorld
 	it  *itWorld
 	ar  *arWorld
+	om  *omWorld
 }
 
 // emit records one request line and the implementation's answer to it.
@@ -100,6 +101,10 @@ func (w *world) exec(op string) (string, string) {
 		case "it":
 			if ans = w.execIT(f[1:]); ans == "" {
 				line = "" // `it begin` has emitted its own lines
+			}
+		case "om":
+			if ans = w.execOM(f[1:]); ans == "" {
+				line = "" // `om begin` has emitted its own lines
 			}
 		case "mt":
 			line, ans = w.execMT(f[1:])
@@ -217,7 +222,7 @@ func main() {
 	r := hx.Start()
 	r.MaxSamples = 6
 	r.Rule = "distinct by sha256 of the request lines; non-trivial = vn: a value used by two listener generations and a Wait answered; " +
-		"vr: forced schedule with >= 2 events; pr: >= 2 callbacks; ev: >= 2 hooks and >= 2 triggers; it: a Hook/Unhook executed inside a callback; " +
+		"vr: forced schedule with >= 2 events; pr: >= 2 callbacks; ev: >= 2 hooks and >= 2 triggers; it: a Hook/Unhook executed inside a callback; om: a Set/Delete/Clear executed inside a ForEach consumer; " +
 		"mt/pt/hw/hc/lk/lm/uu/vd/vc: every stress run"
 	if lines := r.ReplayLines(); lines != nil {
 		emit(r, runOps(0, lines))
@@ -238,6 +243,7 @@ func main() {
 	add(prCorpus...)
 	add(evCorpus...)
 	add(itCorpus...)
+	add(omCorpus...)
 	add([]string{"ar arity 3", "ar new 0", "ar new 2", "ar hook 0 0", "ar hook 1 1", "ar link 1 0", "ar trigger 0 312", "ar trigger 0 123", "ar trigger 1 231", "ar tcount 1"},
 		[]string{"ar arity 9", "ar new 0", "ar hook 0 0", "ar trigger 0 987654321", "ar trigger 0 123456789"},
 		[]string{"ar arity 0", "ar new 1", "ar hook 0 0", "ar trigger 0 0", "ar trigger 0 0", "ar tcount 0"})
@@ -257,6 +263,7 @@ func main() {
 	gen(2500*r.Scale, func(rng *hx.Rng) []string { return genEV(rng, 6+rng.Intn(30)) })
 	gen(1500*r.Scale, genIT)
 	gen(150*r.Scale, genMN)
+	gen(1200*r.Scale, genOM)
 	for n := 0; n <= 9; n++ {
 		n := n
 		gen(30*r.Scale, func(rng *hx.Rng) []string { return genAR(rng, n) })
